@@ -1,8 +1,8 @@
 (* Extraction of the executable frame model.  ExtrOcamlBasic only: nat, positive, Z stay the
    extracted inductive types; no Extract Constant. *)
 From Coq Require Import Extraction ExtrOcamlBasic.
-From KV.Frame Require Import Wire Frame.
+From KV.Frame Require Import Wire Frame Input.
 Extraction "frame_model.ml"
   encode_seg parse_one parse_all wseg_okb
   mkCrypto fec_new sess_fec_new fec_encode encode_oob stage1 frame pp_step unframe
-  kcp_input packet_input send_oob oob_max_size sess_set_mtu header_size spec_decode.
+  kcp_input packet_input kcp_input_g packet_input_g listener_peek_g send_oob oob_max_size sess_set_mtu header_size spec_decode.
